@@ -8,6 +8,7 @@ package VERIFPKG
 // non-interference (observation before/after), invocation census, error aggregation, read-only protection, capabilities.
 
 import (
+	"time"
 	"context"
 	"encoding/json"
 	"errors"
@@ -129,7 +130,7 @@ var c06Logs = &c06Signal{Name: "logs", Run: func(recs []*c06Rec, ro bool) (strin
 		in.MarkReadOnly()
 	}
 	fo := c06MkLogs(cons) // the fan-out consumer itself, or the same vector selected through a connector router (see c06_mk_*)
-	err := fo.ConsumeLogs(context.Background(), in)
+	err := fo.ConsumeLogs(c06Context(), in)
 	return sent, err, fo.Capabilities(), obs(in)
 }}
 
@@ -166,7 +167,7 @@ var c06Traces = &c06Signal{Name: "traces", Run: func(recs []*c06Rec, ro bool) (s
 		in.MarkReadOnly()
 	}
 	fo := c06MkTraces(cons) // the fan-out consumer itself, or the same vector selected through a connector router (see c06_mk_*)
-	err := fo.ConsumeTraces(context.Background(), in)
+	err := fo.ConsumeTraces(c06Context(), in)
 	return sent, err, fo.Capabilities(), obs(in)
 }}
 
@@ -206,7 +207,7 @@ var c06Metrics = &c06Signal{Name: "metrics", Run: func(recs []*c06Rec, ro bool) 
 		in.MarkReadOnly()
 	}
 	fo := c06MkMetrics(cons) // the fan-out consumer itself, or the same vector selected through a connector router (see c06_mk_*)
-	err := fo.ConsumeMetrics(context.Background(), in)
+	err := fo.ConsumeMetrics(c06Context(), in)
 	return sent, err, fo.Capabilities(), obs(in)
 }}
 
@@ -243,7 +244,7 @@ var c06Profiles = &c06Signal{Name: "profiles", Run: func(recs []*c06Rec, ro bool
 		in.MarkReadOnly()
 	}
 	fo := c06MkProfiles(cons) // the fan-out consumer itself, or the same vector selected through a connector router (see c06_mk_*)
-	err := fo.ConsumeProfiles(context.Background(), in)
+	err := fo.ConsumeProfiles(c06Context(), in)
 	return sent, err, fo.Capabilities(), obs(in)
 }}
 
@@ -251,6 +252,25 @@ type c06Case struct {
 	Signal   string   `json:"signal"`
 	Vec      []string `json:"consumers"` // R | M | A, optional suffix f (fails)
 	ReadOnly bool     `json:"read_only_input"`
+	// Context: the request context the fan-out is called with: "" (live), "cancelled", "deadline-passed". What a consumer does
+	// with a finished context is its own business; the fan-out still hands the data to every one of them
+	Context string `json:"request_context,omitempty"`
+}
+
+var c06CurCtx string
+
+func c06Context() context.Context {
+	switch c06CurCtx {
+	case "cancelled":
+		ctx, cancel := context.WithCancel(context.Background())
+		cancel()
+		return ctx
+	case "deadline-passed":
+		ctx, cancel := context.WithDeadline(context.Background(), time.Unix(1, 0))
+		_ = cancel
+		return ctx
+	}
+	return context.Background()
 }
 
 func c06Run(sig *c06Signal, c c06Case) (string, string) {
@@ -263,6 +283,10 @@ func c06Run(sig *c06Signal, c c06Case) (string, string) {
 	var err error
 	var caps consumer.Capabilities
 	var inputAfter func() string
+	c06CurCtx = c.Context
+	if c.Context != "" {
+		desc += " request-context=" + c.Context
+	}
 	if c06Guard(func() { sent, err, caps, inputAfter = sig.Run(recs, c.ReadOnly) }) {
 		return "fanout-panicked", desc
 	}
@@ -370,12 +394,16 @@ func TestVerif(t *testing.T) {
 	var n int64
 	for _, name := range []string{"logs", "traces", "metrics", "profiles"} {
 		for _, vec := range vectors {
-			for _, ro := range []bool{false, true} {
+			for _, roc := range []struct {
+				ro bool
+				cx string
+			}{{false, ""}, {true, ""}, {false, "cancelled"}, {true, "deadline-passed"}} {
+				ro := roc.ro
 				n++
 				if !ctx.Mine(n) {
 					continue
 				}
-				c := c06Case{name, vec, ro}
+				c := c06Case{name, vec, ro, roc.cx}
 				ctx.R.Evals++
 				ctx.R.Trans += int64(len(vec))
 				if len(vec) > 1 {
